@@ -38,9 +38,11 @@ instance instDecidableHWF (hv : HVariant) (orig : Bytes) : (h : HSt) → (es : L
     | isFalse h1, _ => isFalse (fun x => h1 x.1)
     | _, isFalse h2 => isFalse (fun x => h2 x.2)
 
-/-- ghost: has a writeChunk been accepted (requested before close)? -/
-def wroteStep (w : Bool × Bool) : HEv → Bool × Bool       -- (wrote, close requested)
+/-- ghost: has a request that marks the file as changed been accepted (requested before close)?
+A writeChunk always marks; a size change marks iff `sz` (the variant's `sizeSets`). -/
+def markStep (sz : Bool) (w : Bool × Bool) : HEv → Bool × Bool       -- (marked, close requested)
   | .write _ _ => if w.2 then w else (true, false)
+  | .setSize _ => if w.2 then w else (w.1 || sz, false)
   | .close => (w.1, true)
   | _ => w
 
@@ -297,8 +299,8 @@ theorem turn_phase (sz : Bool) (orig ref : Bytes) (w : Bool) (h : HSt) (hp : Pha
 /-- every event keeps the phase invariant, with the reference and the ghost flags stepped along -/
 theorem hstep_phase (sz : Bool) (orig : Bytes) (h : HSt) (r : Bytes × Bool) (w : Bool × Bool) (e : HEv)
     (hp : Phase orig r.1 w.1 h) (hcr : h.closedReq = r.2) (hcw : w.2 = r.2) (hal : hallowed orig h e) :
-    Phase orig (hrefStep r e).1 (wroteStep w e).1 (hstep (hvR sz) orig h e)
-    ∧ (hstep (hvR sz) orig h e).closedReq = (hrefStep r e).2 ∧ (wroteStep w e).2 = (hrefStep r e).2 := by
+    Phase orig (hrefStep r e).1 (markStep sz w e).1 (hstep (hvR sz) orig h e)
+    ∧ (hstep (hvR sz) orig h e).closedReq = (hrefStep r e).2 ∧ (markStep sz w e).2 = (hrefStep r e).2 := by
   cases e with
   | write off data =>
     cases hc : r.2
@@ -310,37 +312,39 @@ theorem hstep_phase (sz : Bool) (orig : Bytes) (h : HSt) (r : Bytes × Bool) (w 
           = enqueue (hvR sz) orig { h with hasChanged := true } (.write off data) := by
         simp only [hstep]; rw [if_neg (by rw [hc']; simp)]
       rw [hs_eq]
-      simp only [hrefStep, hc, wroteStep, hw2, Bool.false_eq_true, ↓reduceIte]
+      simp only [hrefStep, hc, markStep, hw2, Bool.false_eq_true, ↓reduceIte]
       exact ⟨this.1, this.2, (by first | rfl | trivial | simp_all)⟩
     · have hc' : h.closedReq = true := by rw [hcr, hc]
       have hw2 : w.2 = true := by rw [hcw, hc]
-      simp only [hstep, hc', ↓reduceIte, hrefStep, hc, wroteStep, hw2]
+      simp only [hstep, hc', ↓reduceIte, hrefStep, hc, markStep, hw2]
       exact ⟨hp, (by first | rfl | trivial | simp_all), (by first | rfl | trivial | simp_all)⟩
   | setSize n =>
     cases hc : r.2
     · have hc' : h.closedReq = false := by rw [hcr, hc]
       have := client_request_phase sz orig r.1 w.1 h (if sz then { h with hasChanged := true } else h) (.setSize n) rfl hp hc'
-        (by cases sz <;> rfl) w.1 (fun hf hw1 => by cases sz <;> simp [hf hw1])
+        (by cases sz <;> rfl) (w.1 || sz) (fun hf hw1 => by cases sz <;> simp_all)
       have hs_eq : hstep (hvR sz) orig h (.setSize n)
           = enqueue (hvR sz) orig (if sz then { h with hasChanged := true } else h) (.setSize n) := by
         simp only [hstep]; rw [if_neg (by rw [hc']; simp)]
       rw [hs_eq]
-      simp only [hrefStep, hc, wroteStep, Bool.false_eq_true, ↓reduceIte]
+      have hw2 : w.2 = false := by rw [hcw, hc]
+      simp only [hrefStep, hc, markStep, hw2, Bool.false_eq_true, ↓reduceIte]
       exact ⟨this.1, this.2, (by first | rfl | trivial | simp_all)⟩
     · have hc' : h.closedReq = true := by rw [hcr, hc]
-      simp only [hstep, hc', ↓reduceIte, hrefStep, hc, wroteStep]
+      have hw2 : w.2 = true := by rw [hcw, hc]
+      simp only [hstep, hc', ↓reduceIte, hrefStep, hc, markStep, hw2]
       exact ⟨hp, (by first | rfl | trivial | simp_all), (by first | rfl | trivial | simp_all)⟩
   | close =>
     have := close_phase sz orig r.1 w.1 h hp
-    simp only [hrefStep, wroteStep]
+    simp only [hrefStep, markStep]
     exact ⟨this.1, this.2, (by first | rfl | trivial | simp_all)⟩
   | start =>
     have := start_phase sz orig r.1 w.1 h hp
-    simp only [hrefStep, wroteStep]
+    simp only [hrefStep, markStep]
     exact ⟨this.1, by rw [this.2, hcr], hcw⟩
   | chunk n =>
     have := env_phase orig r.1 w.1 h (.chunk n) (Or.inl ⟨n, rfl⟩) (fun _ => trivial) hp
-    simp only [hrefStep, wroteStep, hstep]
+    simp only [hrefStep, markStep, hstep]
     refine ⟨this, ?_, hcw⟩
     split <;> simp [hcr]
   | done ok =>
@@ -348,17 +352,17 @@ theorem hstep_phase (sz : Bool) (orig : Bytes) (h : HSt) (r : Bytes × Bool) (w 
       cases ok
       · trivial
       · exact hal hs) hp
-    simp only [hrefStep, wroteStep, hstep]
+    simp only [hrefStep, markStep, hstep]
     refine ⟨this, ?_, hcw⟩
     split <;> simp [hcr]
   | turn =>
     have := turn_phase sz orig r.1 w.1 h hp
-    simp only [hrefStep, wroteStep]
+    simp only [hrefStep, markStep]
     exact ⟨this.1, by rw [this.2, hcr], hcw⟩
 
 theorem hrun_phase (sz : Bool) (orig : Bytes) : ∀ (es : List HEv) (h : HSt) (r : Bytes × Bool) (w : Bool × Bool),
     Phase orig r.1 w.1 h → h.closedReq = r.2 → w.2 = r.2 → HWF (hvR sz) orig h es →
-    Phase orig (es.foldl hrefStep r).1 (es.foldl wroteStep w).1 (hrun (hvR sz) orig h es) := by
+    Phase orig (es.foldl hrefStep r).1 (es.foldl (markStep sz) w).1 (hrun (hvR sz) orig h es) := by
   intro es
   induction es with
   | nil => intro h r w hp _ _ _; simpa [hrun] using hp
